@@ -82,7 +82,7 @@ class Register:
             elif alias_from.size is not None and not isinstance(
                 alias_from.size, AnnotatedValue
             ):
-                if alias_slice.stop > alias_from.size:
+                if alias_slice.stop > alias_from.size or (alias_slice.start or 0) < 0:
                     raise JaqalError("Index out of range.")
 
     def __hash__(self):
@@ -212,7 +212,7 @@ class Register:
         size = self.size
         while isinstance(size, AnnotatedValue):
             size = size.resolve_value(context)
-        if size is not None and idx >= size:
+        if idx < 0 or (size is not None and idx >= size):
             raise JaqalError("Index out of range.")
         if self.fundamental:
             return (self, idx)
